@@ -47,6 +47,8 @@ var c09DepPaths = []struct{ Import, Real string }{
 	{"dep", "dep"},
 	{"ex.com/dep", "ex.com/dep"},
 	{"ex.com/dep", "root/vendor/ex.com/dep"},
+	{"ex.com/dep", "root/vendor/a.org/x/vendor/ex.com/dep"}, // nested vendoring: the last /vendor/ counts
+	{"ex.com/dep", "vendor/ex.com/dep"},                     // vendor directory at the root
 }
 
 const c09Local = "root/cmd"
@@ -150,7 +152,7 @@ func init() {
 	core.Register(&core.Prop{
 		ID:    "C09",
 		Level: "model_checking",
-		Rule: "typed worlds: a dependency under 3 paths (plain, dotted, vendored) x import style {plain, alias, dot} x every role of a 28-role catalogue singly x 5 shadowing modes x with/without a second import of an equally named package, and every ordered pair of roles (quick: 2 shadowing modes; thorough: all 5, with/without the second import); " +
+		Rule: "typed worlds: a dependency under 5 paths (plain, dotted, vendored, nested-vendored, root vendor directory) x import style {plain, alias, dot} x every role of a 28-role catalogue singly x 5 shadowing modes x with/without a second import of an equally named package, and every ordered pair of roles (quick: 2 shadowing modes; thorough: all 5, with/without the second import); " +
 			"only files that type-check are in the quantifier; oracle computed from go/types: an identifier carries the vendor-stripped path of its object's package iff the object is a package-level object of another package, else none (qualified selectors collapse onto one identifier); " +
 			"the syntax-only resolver must agree on files without dot-imports and without shadowing, and must return an error for dot-imports and for two imports bound to one name; state = generated file; non-trivial = file with at least one remote reference",
 		Assumptions: []string{"go/types of this toolchain defines what an identifier denotes", "programs range over the role catalogue"},
